@@ -14,6 +14,7 @@ structure St where
   n : Nat := 0
   building : Array NType := #[]
   nodes : List NType := []
+  cursor : Cursor := []
 
 def parseInts (ws : List String) : List Int := ws.filterMap String.toInt?
 def parseNats (ws : List String) : List Nat := ws.filterMap String.toNat?
@@ -29,6 +30,10 @@ def step (st : St) (line : String) : St × Option String :=
   | ["end"] =>
       let nodes := st.building.toList
       ({ st with nodes := nodes }, some (circuitLine nodes st.n))
+  | "q" :: "enum" :: amount :: args =>
+      let (cur, res) := enumerate st.nodes st.n st.cursor (parseInts args) (amount.toNat?.getD 0)
+      ({ st with cursor := cur }, some ("enum " ++ (match res with | some cs => fmtCfgs cs | none => "none")))
+  | ["q", "enumreset"] => ({ st with cursor := [] }, some "enumreset ok")
   | "q" :: kind :: args => (st, some (kind ++ " " ++ answer st.nodes st.n kind args))
   | [] => (st, none)
   | _ => (st, some "bad-line")
